@@ -10,14 +10,17 @@ import numpy as np
 
 
 def clear_caches():
-    from optyx import analysis
-    from optyx.core import autodiff, compiler
+    """Empty the process-wide caches; False if that is not possible on this tree (the client then uses one process per job)."""
+    import importlib
 
-    for fn in (compiler._compile_cached, autodiff._gradient_cached, analysis._compute_degree_cached):
+    ok = True
+
+    for modname, attr in (("optyx.core.compiler", "_compile_cached"), ("optyx.core.autodiff", "_gradient_cached"), ("optyx.analysis", "_compute_degree_cached")):
         try:
-            fn.cache_clear()
+            getattr(importlib.import_module(modname), attr).cache_clear()
         except Exception:
-            pass
+            ok = False
+    return ok
 
 
 def do_solve(job):
@@ -85,9 +88,10 @@ def main():
         job = json.loads(line)
         if job.get("op") == "quit":
             break
+        cleared = True
         try:
             if not job.get("keep_caches"):
-                clear_caches()
+                cleared = clear_caches()
             if job["op"] == "solve":
                 res = do_solve(job)
             elif job["op"] == "observe":
@@ -96,8 +100,12 @@ def main():
                 res = {"error": "unknown op"}
         except BaseException as ex:  # noqa: BLE001
             res = {"error": type(ex).__name__ + ": " + str(ex)[:300]}
+        if not cleared:
+            res["one_shot"] = True
         sys.stdout.write(json.dumps(res) + "\n")
         sys.stdout.flush()
+        if not cleared:
+            break  # caches could not be emptied: this process served its single job
 
 
 if __name__ == "__main__":
